@@ -72,19 +72,22 @@ def _stub(msg):
 # step 3: models and harness
 
 
-def build_models():
+def build_models(all_built=False):
     """Extract and compile the monitor (c15spec) and, when the generated file
-    exists and compiles, the generated model (c15model)."""
+    exists and compiles, the generated model (c15model).  all_built: the Coq
+    build of everything Props/C15.v needs has just succeeded (nothing to make)."""
     d = common.build_dir("c15")
     src = os.path.join(common.VERIF, "ocaml", "c15")
     res = {"spec": None, "model": None, "log": ""}
-    # definition files (no proofs) must be compiled
-    defs = ["Transport/RawSpec.vo", "Transport/RawHandshakeSpec.vo", "Transport/PeerDiscipline.vo"]
-    ok, log = common.coq_make(defs, timeout=900)
-    if not ok:
-        res["log"] += log[-2000:]
-        return res
-    okg, logg = common.coq_make(["Transport/RawGen.vo", "Transport/RawHandshake.vo"], timeout=900)
+    okg, logg = True, ""
+    if not all_built:
+        # definition files (no proofs) must be compiled
+        defs = ["Transport/RawSpec.vo", "Transport/RawHandshakeSpec.vo", "Transport/PeerDiscipline.vo"]
+        ok, log = common.coq_make(defs, timeout=900)
+        if not ok:
+            res["log"] += log[-2000:]
+            return res
+        okg, logg = common.coq_make(["Transport/RawGen.vo", "Transport/RawHandshake.vo"], timeout=900)
     with common.Lock("c15-ocaml-" + common.repo_key()):
         for name, need in (("c15spec", True), ("c15model", okg)):
             if not need:
@@ -827,7 +830,7 @@ def main(tier, replay):
         r = f_coq.result()
         harness, glog = f_go.result()
     common.info("C15: [%.0fs] translator, proofs (%d/%d) and harness build done" % (T.s(), len(r["discharged"]), len(r["obligations"])))
-    bins = build_models()
+    bins = build_models(all_built=r["ok"])
     common.info("C15: [%.0fs] model runners built" % T.s())
     if harness is None or bins["spec"] is None:
         common.info("C15: cannot build the harness or the monitor:\n" + (glog or "")[-1500:] + bins["log"])
@@ -934,6 +937,8 @@ def _recheck_discharged(r):
     """An obligation counts as discharged only when make itself considers the
     .vo of its file up to date after the build (an old .vo left behind by a
     failed rebuild does not count)."""
+    if r["ok"]:
+        return  # the whole build succeeded: every target is up to date
     files = ["Props/C15.v"] + CONF_FILES
     stale = set()
     with common.Lock("coq"):
